@@ -4,6 +4,7 @@ CONSTANTS
   NewNs = {"n1", "n2"}
   Objs = {"a", "b"}
   FixF4 = TRUE
+  FixF5 = TRUE
   MaxCreates = 3
-INVARIANTS AllEnabled NothingStranded AllDeliveredExceptPreloaded
+INVARIANTS AllEnabled NothingStranded AllDelivered
 CHECK_DEADLOCK FALSE
